@@ -1,6 +1,7 @@
 import NLE.Driver.TraceParse
 import NLE.Model.Monitors
 import NLE.Model.Own
+import NLE.Model.Life
 /-
   `trace-begin` … lines … `trace-end`: parse a harness trace, run the world model and the monitors,
   answer one line:  `T <events> <parse-error-line|0> <store-mismatches> <fails>` followed by tab-separated
@@ -32,6 +33,15 @@ def accOwn (evs : List TEv) : Option (Nat × String) :=
       | .error msg => some (k, msg)
   go {} 1 evs
 
+def accLife (evs : List TEv) : Option (Nat × String) :=
+  let rec go (s : Life.Sys) (k : Nat) : List TEv → Option (Nat × String)
+    | [] => none
+    | e :: es =>
+      match Life.step s e with
+      | .ok s' => go s' (k + 1) es
+      | .error msg => some (k, msg)
+  go {} 1 evs
+
 def sanitize (s : String) : String :=
   String.ofList (s.toList.map fun c => if c == '\t' || c == '\n' || c == '|' then ' ' else c)
 
@@ -41,7 +51,7 @@ def TraceAcc.finish (a : TraceAcc) : String :=
   let store := m.w.storeMismatch.reverse.map fun s => s!"STORE|store-model|0|{sanitize s}"
   let cov := m.w.cov.map fun (k, n) => s!"COV|{k}|{n}|"
   -- implementation models: does the model accept (= can it produce) this trace?
-  let acc := [("Own", accOwn a.evs.toList)]
+  let acc := [("Own", accOwn a.evs.toList), ("Life", accLife a.evs.toList)]
   let accItems := acc.map fun (name, r) =>
     match r with
     | none => s!"ACC|{name}|0|ok"
